@@ -170,10 +170,10 @@ func errResultIndex(fn *ssa.Function) int {
 type RetKind int
 
 const (
-	RetNil    RetKind = iota // returns a nil error for certain
-	RetErr                   // returns a non-nil error for certain
-	RetMaybe                 // cannot tell
-	RetNoErr                 // function has no error result
+	RetNil   RetKind = iota // returns a nil error for certain
+	RetErr                  // returns a non-nil error for certain
+	RetMaybe                // cannot tell
+	RetNoErr                // function has no error result
 )
 
 // classifyReturn decides whether a return hands back a nil error.
@@ -496,4 +496,45 @@ func (p *Program) Reaches(fn *ssa.Function, pred func(name string, c ssa.CallIns
 		return nil
 	}
 	return rec(fn, 0)
+}
+
+// instrReachesAvoiding: is there a control-flow path from just after instruction a to
+// instruction b that does not execute instruction avoid (avoid may equal a: then the path
+// must not come back to it)?
+func instrReachesAvoiding(a, b, avoid ssa.Instruction) bool {
+	ab := a.Block()
+	ia := instrIndex(a)
+	// rest of a's block
+	for i := ia + 1; i < len(ab.Instrs); i++ {
+		if ab.Instrs[i] == b {
+			return true
+		}
+		if ab.Instrs[i] == avoid {
+			return false
+		}
+	}
+	seen := map[*ssa.BasicBlock]bool{}
+	work := append([]*ssa.BasicBlock{}, ab.Succs...)
+	for len(work) > 0 {
+		blk := work[len(work)-1]
+		work = work[:len(work)-1]
+		if seen[blk] {
+			continue
+		}
+		seen[blk] = true
+		stop := false
+		for _, in := range blk.Instrs {
+			if in == b {
+				return true
+			}
+			if in == avoid {
+				stop = true
+				break
+			}
+		}
+		if !stop {
+			work = append(work, blk.Succs...)
+		}
+	}
+	return false
 }
